@@ -145,6 +145,14 @@ def leanchecker(modules: list[str]) -> tuple[bool, str]:
     return rc == 0, (out + err)
 
 
+def driver_imports(name: str) -> list[str]:
+    """EmsModel modules a driver file imports (they must be built before `lean --run`)."""
+    path = LEAN_DIR / 'Drivers' / f'{name}.lean'
+    if not path.exists():
+        return []
+    return [m.group(1) for m in re.finditer(r'^\s*import\s+(EmsModel\.\S+)', path.read_text(), flags=re.M)]
+
+
 class Driver:
     """Batch line-protocol access to `Drivers/<name>.lean`."""
 
